@@ -584,6 +584,8 @@ def _seq(prefixes, e):
 
 
 def _paths(e):
+    if isinstance(e, dict) and e.get("mac") and e.get("k") in ("block", "if") and str(e["mac"][0]).startswith("debug_assert"):
+        return [Path()]        # a debug assertion has no effect on the paths that return (whether it can fire is C04's question)
     e = simp(e)
     if not isinstance(e, dict):
         return [Path()]
